@@ -246,17 +246,17 @@ theorem canon_sound (v : Val) : ∀ (f : F), f.ws = true →
     cases c with
     | and =>
       simp only [F.ws, Bool.and_eq_true] at h
-      have := canonList_sound v args h.1
+      have := canonList_sound v args h.1.1
       simp only [canon, Conn.comm, if_true, evalB]
       rw [evalAll_perm v (List.mergeSort_perm _ _), this.2.1]
     | or =>
       simp only [F.ws, Bool.and_eq_true] at h
-      have := canonList_sound v args h.1
+      have := canonList_sound v args h.1.1
       simp only [canon, Conn.comm, if_true, evalB]
       rw [evalAny_perm v (List.mergeSort_perm _ _), this.2.2]
     | distinct =>
       simp only [F.ws, Bool.and_eq_true] at h
-      have := canonList_sound v args h.1
+      have := canonList_sound v args h.1.1
       simp only [canon, Conn.comm, if_true, evalB]
       rw [evalIs_eq_map, evalIs_eq_map]
       apply pairwiseDistinct_perm
@@ -307,16 +307,16 @@ theorem canon_sound (v : Val) : ∀ (f : F), f.ws = true →
       match args, h with
       | [a, b], h =>
         simp only [F.ws, Bool.and_eq_true] at h
-        have ha := canon_sound v a h.1
-        have hb := canon_sound v b h.2
+        have ha := canon_sound v a h.1.1.1
+        have hb := canon_sound v b h.1.1.2
         simp [canon, canonList, Conn.comm, evalB, ha.2.1, hb.2.1]
       | [], h | [_], h | _ :: _ :: _ :: _, h => simp [F.ws] at h
     | le =>
       match args, h with
       | [a, b], h =>
         simp only [F.ws, Bool.and_eq_true] at h
-        have ha := canon_sound v a h.1
-        have hb := canon_sound v b h.2
+        have ha := canon_sound v a h.1.1.1
+        have hb := canon_sound v b h.1.1.2
         simp [canon, canonList, Conn.comm, evalB, ha.2.1, hb.2.1]
       | [], h | [_], h | _ :: _ :: _ :: _, h => simp [F.ws] at h
 theorem canonList_sound (v : Val) : ∀ (fs : List F), F.wsList fs = true →
@@ -385,39 +385,265 @@ theorem flatten_ws (c : Conn) (hc : c = .and ∨ c = .or) (as : List F) (h : F.w
         rcases hc with rfl | rfl <;> simp [F.ws] at h <;> simp [h.1.1]
       · simp [F.wsList, ih, h.1]
 
-theorem mkAnd_ws (as : List F) (r : F) (h : mkAnd as = .ok r) (hw : F.wsList as = true) :
-    r.ws = true ∧ r.isBoolSorted = true ∨ (∃ x, flatten .and as = [x] ∧ r = x) := by
-  unfold mkAnd at h
-  split at h
-  · simp at h
-  · split at h
-    · simp at h; subst h; left; simp [F.ws, F.isBoolSorted]
-    · split at h
-      · rename_i x hx; simp at h; subst h; right; exact ⟨_, hx, rfl⟩
-      · simp at h
-      · rename_i xs h1 h2
-        simp at h; subst h; left
-        have := flatten_ws .and (Or.inl rfl) as hw
-        refine ⟨?_, rfl⟩
-        simp only [F.ws, this, Bool.true_and]
-        cases hf : flatten .and as with
-        | nil => exact absurd hf h2
-        | cons _ _ => rfl
-
 theorem mem_flatten_ws (c : Conn) (hc : c = .and ∨ c = .or) (as : List F) (h : F.wsList as = true) (x : F)
     (hx : flatten c as = [x]) : x.ws = true := by
   have := flatten_ws c hc as h
   rw [hx] at this
   simpa [F.wsList] using this
 
-/-- every member of a flattened argument list of well-sorted boolean arguments is boolean -/
-def allBool : List F → Bool
-  | [] => true
-  | a :: as => a.isBoolSorted && allBool as
-
 theorem allBool_append (as bs : List F) : allBool (as ++ bs) = (allBool as && allBool bs) := by
   induction as with
   | nil => simp [allBool]
   | cons a as ih => simp [allBool, ih, Bool.and_assoc]
+
+theorem flatten_allBool (c : Conn) (hc : c = .and ∨ c = .or) (as : List F) (hw : F.wsList as = true)
+    (hb : allBool as = true) : allBool (flatten c as) = true := by
+  induction as with
+  | nil => simp [flatten, allBool]
+  | cons a as ih =>
+    simp only [F.wsList, Bool.and_eq_true] at hw
+    simp only [allBool, Bool.and_eq_true] at hb
+    have ih := ih hw.2 hb.2
+    cases a with
+    | lit b => simp [flatten, ih]
+    | num n => simp [F.isBoolSorted] at hb
+    | atom n s args => simp [flatten, allBool, ih, hb.1]
+    | conn c' xs =>
+      simp only [flatten]
+      split
+      · rename_i hcc; subst hcc
+        rw [allBool_append, ih]
+        rcases hc with rfl | rfl <;> simp [F.ws] at hw <;> simp [hw.1.2]
+      · simp [allBool, ih, F.isBoolSorted]
+
+theorem mkAnd_props (as : List F) (r : F) (h : mkAnd as = .ok r) (hw : F.wsList as = true)
+    (hb : allBool as = true) : r.ws = true ∧ r.isBoolSorted = true := by
+  have hfw := flatten_ws .and (Or.inl rfl) as hw
+  have hfb := flatten_allBool .and (Or.inl rfl) as hw hb
+  unfold mkAnd at h
+  split at h
+  · simp at h
+  · split at h
+    · simp at h; subst h; simp [F.ws, F.isBoolSorted]
+    · split at h
+      · rename_i x hx; simp at h; subst h
+        rw [hx] at hfw hfb
+        simp [F.wsList, allBool] at hfw hfb
+        exact ⟨hfw, hfb⟩
+      · simp at h
+      · rename_i xs h1 h2
+        simp at h; subst h
+        refine ⟨?_, rfl⟩
+        simp only [F.ws, hfw, hfb, Bool.true_and, Bool.and_true]
+        cases hf : flatten .and as with
+        | nil => exact absurd hf h2
+        | cons _ _ => rfl
+
+theorem mkOr_props (as : List F) (r : F) (h : mkOr as = .ok r) (hw : F.wsList as = true)
+    (hb : allBool as = true) : r.ws = true ∧ r.isBoolSorted = true := by
+  have hfw := flatten_ws .or (Or.inr rfl) as hw
+  have hfb := flatten_allBool .or (Or.inr rfl) as hw hb
+  unfold mkOr at h
+  split at h
+  · simp at h
+  · split at h
+    · simp at h; subst h; simp [F.ws, F.isBoolSorted]
+    · split at h
+      · rename_i x hx; simp at h; subst h
+        rw [hx] at hfw hfb
+        simp [F.wsList, allBool] at hfw hfb
+        exact ⟨hfw, hfb⟩
+      · simp at h
+      · rename_i xs h1 h2
+        simp at h; subst h
+        refine ⟨?_, rfl⟩
+        simp only [F.ws, hfw, hfb, Bool.true_and, Bool.and_true]
+        cases hf : flatten .or as with
+        | nil => exact absurd hf h2
+        | cons _ _ => rfl
+
+theorem mkNot_props (a : F) (hw : a.ws = true) (hb : a.isBoolSorted = true) :
+    (mkNot a).ws = true ∧ (mkNot a).isBoolSorted = true := by
+  unfold mkNot
+  split
+  · rename_i x
+    simp [F.ws] at hw
+    exact ⟨hw.1, hw.2⟩
+  · simp [F.ws, F.isBoolSorted]
+  · exact ⟨by simp [F.ws, hw, hb], rfl⟩
+
+theorem mkImplies_props (l r : F) (hl : l.ws = true) (hr : r.ws = true) (bl : l.isBoolSorted = true)
+    (br : r.isBoolSorted = true) : (mkImplies l r).ws = true ∧ (mkImplies l r).isBoolSorted = true := by
+  unfold mkImplies
+  split
+  · simp [F.ws, F.isBoolSorted]
+  · exact ⟨hr, br⟩
+  · simp [F.ws, F.isBoolSorted]
+  · exact mkNot_props _ hl bl
+  · exact ⟨by simp [F.ws, hl, hr, bl, br], rfl⟩
+
+theorem mkEq_props (l r : F) (hl : l.ws = true) (hr : r.ws = true) (hs : l.isBoolSorted = r.isBoolSorted) :
+    (mkEq l r).ws = true ∧ (mkEq l r).isBoolSorted = true := by
+  unfold mkEq
+  split
+  · simp [F.ws, F.isBoolSorted]
+  · split
+    · simp [F.ws, F.isBoolSorted]
+    · exact ⟨by simp [F.ws, hl, hr, hs], rfl⟩
+
+/-! ### building a whole tree through the interface -/
+
+/-- what building preserves: truth value, sort, well-sortedness; integer-sorted formulas are untouched -/
+def Rel (v : Val) (f r : F) : Prop :=
+  evalB v r = evalB v f ∧ r.isBoolSorted = f.isBoolSorted ∧ r.ws = true ∧ (f.isBoolSorted = false → r = f)
+
+def RelList (v : Val) : List F → List F → Prop
+  | [], [] => True
+  | f :: fs, r :: rs => Rel v f r ∧ RelList v fs rs
+  | _, _ => False
+
+theorem relList_all (v : Val) : ∀ (fs rs : List F), RelList v fs rs →
+    evalAll v rs = evalAll v fs ∧ evalAny v rs = evalAny v fs ∧ F.wsList rs = true ∧
+      allBool rs = allBool fs ∧ noneBool rs = noneBool fs ∧ (noneBool fs = true → rs = fs) ∧ rs.isEmpty = fs.isEmpty
+  | [], [], _ => by simp [evalAll, evalAny, F.wsList, allBool, noneBool]
+  | f :: fs, r :: rs, h => by
+    obtain ⟨⟨h1, h2, h3, h4⟩, ht⟩ := h
+    have ih := relList_all v fs rs ht
+    refine ⟨by simp [evalAll, h1, ih.1], by simp [evalAny, h1, ih.2.1], by simp [F.wsList, h3, ih.2.2.1],
+      by simp [allBool, h2, ih.2.2.2.1], by simp [noneBool, h2, ih.2.2.2.2.1], ?_, by simp⟩
+    intro hn
+    simp only [noneBool, Bool.and_eq_true, Bool.not_eq_true'] at hn
+    rw [h4 hn.1, ih.2.2.2.2.2.1 hn.2]
+  | [], _ :: _, h | _ :: _, [], h => by simp [RelList] at h
+
+mutual
+/-- **every formula built through the constraint-construction interface has the truth value of the
+    unsimplified formula it was built from**, under every valuation (well-sorted input, no raise) -/
+theorem build_eval (v : Val) : ∀ (f r : F), f.ws = true → build f = .ok r → Rel v f r
+  | .lit b, r, _, h => by simp [build] at h; subst h; simp [Rel, F.ws]
+  | .num n, r, _, h => by simp [build] at h; subst h; simp [Rel, F.ws]
+  | .atom n s args, r, hw, h => by simp [build] at h; subst h; exact ⟨rfl, rfl, hw, fun _ => rfl⟩
+  | .conn c args, r, hw, h => by
+    simp only [build] at h
+    cases hb : buildList args with
+    | error e => simp [hb, bind, Except.bind] at h
+    | ok as =>
+      simp only [hb, bind, Except.bind] at h
+      cases c with
+      | and =>
+        simp only [F.ws, Bool.and_eq_true] at hw
+        have hl := relList_all v args as (buildList_eval v args as hw.1.1 hb)
+        simp only [build1] at h
+        have hp := mkAnd_props as r h hl.2.2.1 (by rw [hl.2.2.2.1]; exact hw.2)
+        exact ⟨by rw [mkAnd_eval v as r h, hl.1]; simp [evalB], by rw [hp.2]; rfl, hp.1, by simp [F.isBoolSorted]⟩
+      | or =>
+        simp only [F.ws, Bool.and_eq_true] at hw
+        have hl := relList_all v args as (buildList_eval v args as hw.1.1 hb)
+        simp only [build1] at h
+        have hp := mkOr_props as r h hl.2.2.1 (by rw [hl.2.2.2.1]; exact hw.2)
+        exact ⟨by rw [mkOr_eval v as r h, hl.2.1]; simp [evalB], by rw [hp.2]; rfl, hp.1, by simp [F.isBoolSorted]⟩
+      | distinct =>
+        simp only [F.ws, Bool.and_eq_true] at hw
+        have hl := relList_all v args as (buildList_eval v args as hw.1.1 hb)
+        have has : as = args := hl.2.2.2.2.2.1 hw.2
+        subst has
+        simp only [build1, mkDistinct] at h
+        split at h
+        · simp at h
+        · simp at h; subst h
+          exact ⟨rfl, rfl, by simp [F.ws, hw.1.1, hw.1.2, hw.2], by simp [F.isBoolSorted]⟩
+      | not =>
+        match args, as, hw, hb, h with
+        | [a], as, hw, hb, h =>
+          simp only [F.ws, Bool.and_eq_true] at hw
+          have hl := buildList_eval v [a] as (by simp [F.wsList, hw.1]) hb
+          match as, hl, h with
+          | [a'], hl, h =>
+            obtain ⟨⟨h1, h2, h3, h4⟩, _⟩ := hl
+            simp only [build1] at h
+            simp at h; subst h
+            have hp := mkNot_props a' h3 (by rw [h2]; exact hw.2)
+            exact ⟨by rw [mkNot_eval, h1]; simp [evalB], by rw [hp.2]; rfl, hp.1, by simp [F.isBoolSorted]⟩
+          | [], hl, h | _ :: _ :: _, hl, h => simp [RelList] at hl
+        | [], as, hw, hb, h | _ :: _ :: _, as, hw, hb, h => simp [F.ws] at hw
+      | imp =>
+        match args, as, hw, hb, h with
+        | [a, b], as, hw, hb, h =>
+          simp only [F.ws, Bool.and_eq_true] at hw
+          have hl := buildList_eval v [a, b] as (by simp [F.wsList, hw.1.1.1, hw.1.1.2]) hb
+          match as, hl, h with
+          | [a', b'], hl, h =>
+            obtain ⟨⟨h1, h2, h3, h4⟩, ⟨g1, g2, g3, g4⟩, _⟩ := hl
+            simp only [build1] at h
+            simp at h; subst h
+            have hp := mkImplies_props a' b' h3 g3 (by rw [h2]; exact hw.1.2) (by rw [g2]; exact hw.2)
+            exact ⟨by rw [mkImplies_eval, h1, g1]; simp [evalB], by rw [hp.2]; rfl, hp.1, by simp [F.isBoolSorted]⟩
+          | [], hl, h | [_], hl, h | _ :: _ :: _ :: _, hl, h => simp [RelList] at hl
+        | [], as, hw, hb, h | [_], as, hw, hb, h | _ :: _ :: _ :: _, as, hw, hb, h => simp [F.ws] at hw
+      | eq =>
+        match args, as, hw, hb, h with
+        | [a, b], as, hw, hb, h =>
+          simp only [F.ws, Bool.and_eq_true, beq_iff_eq] at hw
+          have hl := buildList_eval v [a, b] as (by simp [F.wsList, hw.1.1, hw.1.2]) hb
+          match as, hl, h with
+          | [a', b'], hl, h =>
+            obtain ⟨⟨h1, h2, h3, h4⟩, ⟨g1, g2, g3, g4⟩, _⟩ := hl
+            simp only [build1] at h
+            simp at h; subst h
+            have hs : a'.isBoolSorted = b'.isBoolSorted := by rw [h2, g2]; exact hw.2
+            have hp := mkEq_props a' b' h3 g3 hs
+            refine ⟨?_, by rw [hp.2]; rfl, hp.1, by simp [F.isBoolSorted]⟩
+            rw [mkEq_eval v a' b' h3 g3 hs]
+            simp only [evalB, h2]
+            cases hab : a.isBoolSorted with
+            | true => simp [h1, g1]
+            | false =>
+              have hbb : b.isBoolSorted = false := by rw [← hw.2]; exact hab
+              rw [h4 hab, g4 hbb]
+          | [], hl, h | [_], hl, h | _ :: _ :: _ :: _, hl, h => simp [RelList] at hl
+        | [], as, hw, hb, h | [_], as, hw, hb, h | _ :: _ :: _ :: _, as, hw, hb, h => simp [F.ws] at hw
+      | lt =>
+        match args, as, hw, hb, h with
+        | [a, b], as, hw, hb, h =>
+          simp only [F.ws, Bool.and_eq_true, Bool.not_eq_true'] at hw
+          have hl := buildList_eval v [a, b] as (by simp [F.wsList, hw.1.1.1, hw.1.1.2]) hb
+          match as, hl, h with
+          | [a', b'], hl, h =>
+            obtain ⟨⟨h1, h2, h3, h4⟩, ⟨g1, g2, g3, g4⟩, _⟩ := hl
+            simp only [build1, mkLt] at h
+            simp at h; subst h
+            rw [h4 hw.1.2, g4 hw.2]
+            exact ⟨rfl, rfl, by simp [F.ws, hw.1.1.1, hw.1.1.2, hw.1.2, hw.2], by simp [F.isBoolSorted]⟩
+          | [], hl, h | [_], hl, h | _ :: _ :: _ :: _, hl, h => simp [RelList] at hl
+        | [], as, hw, hb, h | [_], as, hw, hb, h | _ :: _ :: _ :: _, as, hw, hb, h => simp [F.ws] at hw
+      | le =>
+        match args, as, hw, hb, h with
+        | [a, b], as, hw, hb, h =>
+          simp only [F.ws, Bool.and_eq_true, Bool.not_eq_true'] at hw
+          have hl := buildList_eval v [a, b] as (by simp [F.wsList, hw.1.1.1, hw.1.1.2]) hb
+          match as, hl, h with
+          | [a', b'], hl, h =>
+            obtain ⟨⟨h1, h2, h3, h4⟩, ⟨g1, g2, g3, g4⟩, _⟩ := hl
+            simp only [build1, mkLe] at h
+            simp at h; subst h
+            rw [h4 hw.1.2, g4 hw.2]
+            exact ⟨rfl, rfl, by simp [F.ws, hw.1.1.1, hw.1.1.2, hw.1.2, hw.2], by simp [F.isBoolSorted]⟩
+          | [], hl, h | [_], hl, h | _ :: _ :: _ :: _, hl, h => simp [RelList] at hl
+        | [], as, hw, hb, h | [_], as, hw, hb, h | _ :: _ :: _ :: _, as, hw, hb, h => simp [F.ws] at hw
+theorem buildList_eval (v : Val) : ∀ (fs rs : List F), F.wsList fs = true → buildList fs = .ok rs → RelList v fs rs
+  | [], rs, _, h => by simp [buildList] at h; subst h; trivial
+  | f :: fs, rs, hw, h => by
+    simp only [F.wsList, Bool.and_eq_true] at hw
+    simp only [buildList] at h
+    cases hf : build f with
+    | error e => simp [hf, bind, Except.bind] at h
+    | ok x =>
+      cases hfs : buildList fs with
+      | error e => simp [hf, hfs, bind, Except.bind] at h
+      | ok xs =>
+        simp [hf, hfs, bind, Except.bind] at h
+        subst h
+        exact ⟨build_eval v f x hw.1 hf, buildList_eval v fs xs hw.2 hfs⟩
+end
 
 end GasolVerif.Formula
